@@ -904,6 +904,72 @@ def r8_first_sets(rep, g, a):
                   f'`{fn}` transcribes `{rule}` but starts with {fmt_set(ff - af)} in addition / lacks {fmt_set(af - ff)}, nullable {nn} vs {an} in the ABNF', loc)
 
 
+PREFIX_SPECIAL = {
+    # chunked lexing: one call takes a run of unescaped characters, the ABNF rule one character; the call must lie between the rule and 1*rule
+    'strings::basic_chars': 'between', 'strings::mlb_content': 'between',
+}
+PREFIX_EXCLUDE = {
+    # over-approximation of the model (a value-level guard it does not see), re-checked structurally below
+    'array::array': ({b'[,'}, 'the trailing comma is only tried when the list is non-empty (`if !array.is_empty()` in array_values)'),
+    'value::value': ({b'[,'}, 'same as array::array'),
+}
+
+
+def r9_prefix_languages(rep, g, a):
+    import os
+    import pickle
+    R = rep.rule('C01/R9', 'every parser function that transcribes an ABNF rule accepts the same set of 2-byte prefixes as that rule (prefix language of '
+                 'length 2 computed exactly on classes, literals, bounds, sequence, choice and repetition; value filters and lookahead over-approximated)', floor=52)
+    facts = g.facts
+    cache = os.path.join(facts.dir, 'prefix2.pkl')
+    ps = None
+    if os.path.exists(cache):
+        try:
+            ps = pickle.load(open(cache, 'rb'))
+        except Exception:
+            ps = None
+    if ps is None:
+        ps = g.prefix_sets(2)
+        try:
+            pickle.dump(ps, open(cache + f'.tmp{os.getpid()}', 'wb'))
+            os.rename(cache + f'.tmp{os.getpid()}', cache)
+        except OSError:
+            pass
+    ws = cc(a, 'wschar')
+
+    def show(x):
+        x = sorted(x)
+        return ', '.join(repr(y)[1:] for y in x[:6]) + (f' … ({len(x)})' if len(x) > 6 else '')
+    for fn, (rule, modulo) in sorted(RULE_MAP.items()):
+        A = ps.get((P + fn, ()))
+        if A is None:
+            rep.incomplete(R, f'{fn}~{rule}', 'no prefix set computed')
+            continue
+        B = a.prefixes(rule, 2)
+        loc = facts.loc(facts.body(P + fn))
+        if modulo:
+            A = frozenset(x for x in A if not (x and x[0] in ws))
+        if fn in PREFIX_EXCLUDE:
+            A = A - PREFIX_EXCLUDE[fn][0]
+        if PREFIX_SPECIAL.get(fn) == 'between':
+            B2 = a.prefixes(('rep', 1, INF, ('ref', rule)), 2)
+            ok = B <= A <= B2
+            detail = f'lacks {show(B - A)}; beyond 1*{rule}: {show(A - B2)}'
+        else:
+            ok = A == B
+            detail = f'accepts in addition {show(A - B)}; lacks {show(B - A)}'
+        rep.check(R, f'{fn}~{rule}', ok, f'{len(A)} prefixes', f'`{fn}` and ABNF `{rule}` differ on 2-byte prefixes: {detail}', loc)
+    # the guard behind the array exclusion
+    b = facts.body(P + 'array::array_values')
+    okg = False
+    for n in walk(b['body']):
+        if n.get('k') == 'if':
+            c = peel(n['cond'])
+            if c.get('k') == 'unary' and c.get('op') == '!' and peel(c['a']).get('k') == 'mcall' and peel(c['a']).get('name') == 'is_empty':
+                okg = any(x.get('k') == 'path' and (x.get('path') or '').endswith('ARRAY_SEP') for x in walk(n['then']))
+    rep.check(R, 'array::array_values|comma-needs-element', okg, 'opt(ARRAY_SEP) only under !array.is_empty()', 'the trailing comma is accepted in an array without elements (`[,]`)', facts.loc(b))
+
+
 def rules(rep, facts):
     feats = set(facts.crates.get('toml_edit', {}).get('features', []))
     if 'toml_edit' not in facts.crates or 'parse' not in feats:
@@ -918,6 +984,7 @@ def rules(rep, facts):
     r5_filters(rep, g, a)
     r6_lines(rep, g, a)
     r8_first_sets(rep, g, a)
+    r9_prefix_languages(rep, g, a)
     if 'toml' in facts.crates:
         r7_single_parser(rep, facts)
 
